@@ -44,6 +44,8 @@ def _work(args):
     try:
         res = _CHECK.run_item(item, _TIER)
         res['_idx'] = idx
+        for v in res.get('viol', ()):
+            v['_item'] = idx
         return res
     except HarnessError as e:
         return {'_idx': idx, '_harness': f'{e}'}
@@ -97,7 +99,9 @@ def run_check(pid, tier, seed=0, jobs=None, only=None):
         traceback.print_exc()
         return 2
     items = list(mod.items(tier))
+    orig = list(range(len(items)))
     if only is not None:
+        orig = list(only)
         items = [items[i] for i in only]
     n = len(items)
     if n == 0:
@@ -165,7 +169,7 @@ def run_check(pid, tier, seed=0, jobs=None, only=None):
     confirmed = []
     seen_keys = set()
     for v in reported:
-        key = v.get('key') or json.dumps(v.get('case'), sort_keys=True, default=str)
+        key = viol_key(v)
         if key in seen_keys:
             continue
         seen_keys.add(key)
@@ -176,13 +180,22 @@ def run_check(pid, tier, seed=0, jobs=None, only=None):
         except Exception:
             again = ['replay raised: ' + traceback.format_exc()]
         if not again:
-            print(f'HARNESS ERROR: violation did not reproduce on replay: {v.get("msg")}', file=sys.stderr)
-            return 2
+            # The isolated case does not fail: it may depend on what the compiler did earlier in the same
+            # process (state leaking between compilations).  Re-execute the whole work item, which is a
+            # deterministic sequence, in a fresh interpreter; the violation counts only if it recurs there.
+            if '_item' in v and _item_recurs(pid, tier, orig[v['_item']], key):
+                v = dict(v)
+                v['_item'] = orig[v['_item']]
+                v['case'] = {'kind': '_item', 'tier': tier, 'item': v['_item'], 'key': key, 'inner': v['case']}
+                v['msg'] = f"{v.get('msg')} [history-dependent: fails only after the earlier compilations of work item {v['_item']}]"
+            else:
+                print(f'HARNESS ERROR: violation did not reproduce on replay: {v.get("msg")}', file=sys.stderr)
+                return 2
         confirmed.append(v)
     for i, v in enumerate(confirmed):
         path = os.path.join(REPLAY_DIR, f'{pid}-{i}.json')
         with open(path, 'w') as f:
-            json.dump({'property': pid, 'msg': v.get('msg'), 'case': v['case'], 'tier': tier, 'seed': seed}, f, indent=1, default=str)
+            json.dump({'property': pid, 'msg': v.get('msg'), 'case': _jsonable(v['case']), 'tier': tier, 'seed': seed}, f, indent=1, default=str)
         print(f'VIOLATION property={pid} replay={path}')
         print(f'  {v.get("msg")}')
     # ---- evidence
@@ -213,6 +226,29 @@ def run_check(pid, tier, seed=0, jobs=None, only=None):
     brief = {k: v for k, v in cov.items() if isinstance(v, (int, float, bool))}
     print(f'{pid} {tier}: {"VIOLATED" if confirmed else "held"} in {wall:.1f}s; ' + ' '.join(f'{k}={v}' for k, v in sorted(brief.items())))
     return 1 if confirmed else 0
+
+
+def viol_key(v):
+    return v.get('key') or json.dumps(v.get('case'), sort_keys=True, default=str)
+
+
+def run_one_item(pid, tier, idx):
+    """Violations of one work item, executed in this process (used from a fresh interpreter)."""
+    mod = load_check(pid)
+    items = list(mod.items(tier))
+    res = mod.run_item(items[idx], tier)
+    return res.get('viol', [])
+
+
+def _item_recurs(pid, tier, idx, key):
+    import subprocess
+    p = subprocess.run([sys.executable, '-m', 'hv.replay', '--item', pid, tier, str(idx)], cwd=ROOT,
+                       stdout=subprocess.PIPE, stderr=subprocess.PIPE, timeout=7200)
+    try:
+        keys = json.loads(p.stdout.decode().strip().splitlines()[-1])
+    except Exception:
+        return False
+    return key in keys
 
 
 def _jsonable(x):
